@@ -77,6 +77,8 @@ impl Concretizer {
                 let used: Vec<String> = memo.values().cloned().collect();
                 if used.contains(&cand) || is_reserved(&cand) { text.to_string() } else { cand }
             }
+            // text the tokenizer cannot tokenize; it is always the last token of a string (the machine reads nothing behind it)
+            "bad" => ["1e5", "2e", "1.2.3", "'abc", "\"x ]", "3.e1"][rng.gen_range(0..6)].to_string(),
             _ => text.to_string(),
         };
         memo.insert(key, s.clone());
@@ -226,7 +228,7 @@ pub fn replay(args: &[String]) {
         if good && !ok && r["ast"][0] == "error" {
             if let (Some(spec), Some(got)) = (r["ast"][1].as_str(), parse_error_variant(&case.text)) {
                 *by_variant.entry(got.clone()).or_insert(0) += 1;
-                if spec == got {
+                if spec == got || (spec == "LexicalError" && (got == "InvalidNumber" || got == "UnterminatedString")) {
                     variant_agree += 1;
                 } else {
                     variant_differ += 1;
